@@ -77,6 +77,14 @@ fn parse(args: &[&str]) -> Option<Case> {
 
 /// Parent side: run one SCHED case in a freshly spawned copy of this executable.
 pub fn sched(args: &[&str]) -> String {
+    sched_cmd("SCHED", args)
+}
+/// SCHEDX: same grammar and same expected result as SCHED, but the calls go through the crate's OTHER public entry points that
+/// generate a fresh creation timestamp (new_std_payload_bundle, new_status_report_bundle) in rotation with `now()`.
+pub fn schedx(args: &[&str]) -> String {
+    sched_cmd("SCHEDX", args)
+}
+fn sched_cmd(cmd: &str, args: &[&str]) -> String {
     if parse(args).is_none() {
         return "BADCASE".into();
     }
@@ -96,7 +104,7 @@ pub fn sched(args: &[&str]) -> String {
     };
     {
         let mut stdin = child.stdin.take().expect("piped stdin");
-        let _ = writeln!(stdin, "SCHED {}", args.join(" "));
+        let _ = writeln!(stdin, "{} {}", cmd, args.join(" "));
     }
     match child.wait_with_output() {
         Ok(o) => {
@@ -123,6 +131,10 @@ pub fn sched_child_main() {
     let toks: Vec<&str> = line.split_whitespace().collect();
     let args: &[&str] = match toks.first() {
         Some(&"SCHED") => &toks[1..],
+        Some(&"SCHEDX") => {
+            ENTRY_MIX.store(true, std::sync::atomic::Ordering::SeqCst);
+            &toks[1..]
+        }
         _ => &toks[..],
     };
     let out = match parse(args) {
@@ -132,6 +144,44 @@ pub fn sched_child_main() {
     println!("{}", out);
     let _ = std::io::stdout().flush();
     std::process::exit(0);
+}
+
+static ENTRY_MIX: std::sync::atomic::AtomicBool = std::sync::atomic::AtomicBool::new(false);
+
+/// One call that generates a fresh creation timestamp, through the entry point number `k`.
+fn fresh_timestamp(k: usize) -> bp7::CreationTimestamp {
+    use bp7::EndpointID;
+    if !ENTRY_MIX.load(std::sync::atomic::Ordering::SeqCst) {
+        return bp7::CreationTimestamp::now();
+    }
+    let src = EndpointID::with_dtn("//src/app").expect("eid");
+    let dst = EndpointID::with_dtn("//dst/app").expect("eid");
+    match k % 3 {
+        0 => bp7::CreationTimestamp::now(),
+        1 => bp7::bundle::new_std_payload_bundle(src, dst, b"x".to_vec()).primary.creation_timestamp,
+        _ => {
+            // a subject bundle that does not request status times: the report bundle's own creation timestamp is the only fresh one
+            let mut p = bp7::primary::PrimaryBlock::new();
+            p.destination = dst;
+            p.source = src.clone();
+            p.report_to = src.clone();
+            p.creation_timestamp = bp7::CreationTimestamp::with_time_and_seq(1, 0);
+            p.lifetime = std::time::Duration::from_secs(3600);
+            let subject = bp7::Bundle::new(
+                p,
+                vec![bp7::canonical::new_payload_block(bp7::flags::BlockControlFlags::empty(), b"y".to_vec())],
+            );
+            bp7::administrative_record::new_status_report_bundle(
+                &subject,
+                src,
+                bp7::crc::CRC_NO,
+                bp7::administrative_record::RECEIVED_BUNDLE,
+                bp7::administrative_record::NO_INFORMATION,
+            )
+            .primary
+            .creation_timestamp
+        }
+    }
 }
 
 struct St {
@@ -160,10 +210,10 @@ fn park(sh: &Shared, id: usize) {
 fn worker(sh: Shared, id: usize, readings: Vec<u64>) {
     let hook_sh = sh.clone();
     bp7::verif_hooks::set_yield_hook(Some(Box::new(move |_op| park(&hook_sh, id))));
-    for r in readings {
+    for (k, r) in readings.into_iter().enumerate() {
         park(&sh, id); // the grant that starts the call
         bp7::verif_hooks::set_thread_clock_ms(Some(r));
-        let res = std::panic::catch_unwind(bp7::CreationTimestamp::now);
+        let res = std::panic::catch_unwind(move || fresh_timestamp(id + k + 1));
         let (m, _) = &*sh;
         let mut st = m.lock().unwrap();
         match res {
